@@ -57,8 +57,10 @@ func runC13(c *Ctx) {
 	equalityExtra(c)
 	dateGranularity(c, "date-granularity")
 	injectiveEncoding(c)
-	schemaMapKeyRule(c, c.reachDecls("schema-map-key", "sbom.(*Node).flatString", "sbom.(*Edge).flatString", "sbom.(*Person).flatString",
-		"sbom.(*ExternalReference).flatString", "sbom.(*NodeList).Equal", "sbom.(*Node).Equal", "sbom.(*Node).HashesMatch"))
+	encDecls := c.reachDecls("schema-map-key", "sbom.(*Node).flatString", "sbom.(*Edge).flatString", "sbom.(*Person).flatString",
+		"sbom.(*ExternalReference).flatString", "sbom.(*NodeList).Equal", "sbom.(*Node).Equal", "sbom.(*Node).HashesMatch")
+	schemaMapKeyRule(c, encDecls)
+	enumNameTableRule(c, encDecls)
 }
 
 func runC14(c *Ctx) {
